@@ -17,7 +17,11 @@ honour the common interface:
     every stream is an own object, found at position 0, delivering size_bytes bytes — whatever was done with the
     streams of the OTHER images in between;
   * the metadata objects (result, unit, image): a field declared `str` holds a `str` (an empty-but-present element
-    of the file is the empty string, not None).
+    of the file is the empty string, not None);
+  * operation SEQUENCES on one result (`Walk.sequences`): after the first walk consumed / half-read / closed the
+    streams, the same result is walked again in the opposite order (tables, images, units) and its units a third time;
+    every object the accessors hand out THEN honours the interface as well (a unit's image copy built from a result
+    stream that was read before still delivers size_bytes bytes from position 0).
 """
 from __future__ import annotations
 
@@ -62,6 +66,7 @@ class Walk:
         self.out = []
         self.n_calls = 0
         self.images = {}      # id(image object) -> (where, image): every distinct image object met during the walk
+        self.closed = set()   # id(image object) whose stored stream THIS walk closed (step 3 of `collected`)
 
     def add(self, key, what):
         if len(self.out) < 50 and not any(k == key for k, _ in self.out):
@@ -120,6 +125,11 @@ class Walk:
             if isinstance(ct, str) and not utf8_ok(ct):
                 self.add(f"not-utf8:{cls}.get_metadata.content_type", f"{where} content_type not UTF-8")
             self.declared_str(where, cls, md)
+        if id(im) in self.closed:
+            # the walk itself closed the stream this image stores (a consumer's `with image.get_bytes() as f:`); the classes
+            # that store a stream hand out that very object, so get_bytes() of THIS image raises from then on.  That is the
+            # modelled behaviour (the theorems of C04_Streams carry the hypothesis `closed = false` for every stored stream) and is not judged again in the later walks.
+            return
         ok, fl = self.call(where, im, "get_bytes")
         if ok:
             try:
@@ -204,7 +214,36 @@ class Walk:
             except Exception as e:  # noqa: BLE001
                 self.add(f"raises:{cls}.{acc}", f"{where}.{acc}() raised while iterating: {type(e).__name__}: {str(e)[:120]}")
         self.collected()
+        self.sequences(r)
         return self.out
+
+    # ---- operation SEQUENCES on one result
+    def sequences(self, r):
+        """The statement holds for every object reachable from the result — whenever and in whatever order the consumer
+        reaches it.  After the first walk (units, images, tables; all streams read to their end, several half-read or
+        closed by `collected`) the SAME result object is walked again in the opposite order (tables, images, units) and
+        its units a third time: what an accessor hands out then (units / annotated image copies built on demand from
+        the state the result is in NOW) must honour the interface exactly as the first time."""
+        cls = type(r).__name__
+        plan = (("iterate_tables", self.table, "second walk"), ("iterate_images", self.image, "second walk"),
+                ("iterate_units", self.unit, "second walk, after the result's images were read"),
+                ("iterate_units", self.unit, "third walk over the units"))
+        for acc, fn, how in plan:
+            ok, it = self.call(cls, r, acc)
+            if not ok:
+                continue
+            try:
+                k = 0
+                for x in it:
+                    fn(f"{cls}.{acc}[{k}] ({how} of the same result)", x)
+                    k += 1
+                    if k >= MAX_ITEMS:
+                        break
+            except Exception as e:  # noqa: BLE001
+                self.add(f"raises:{cls}.{acc}", f"{cls}.{acc}() raised while iterating ({how}): {type(e).__name__}: {str(e)[:120]}")
+        ok, v = self.call(cls, r, "get_full_text")
+        if ok:
+            self.text(cls + " (after the walks)", cls, "get_full_text", v)
 
     # ---- metadata objects: declared `str` fields hold `str`
     def declared_str(self, where, cls, md):
@@ -279,6 +318,7 @@ class Walk:
                 fl.close()
             except Exception:  # noqa: BLE001
                 pass
+            self.closed.add(id(im))
             self._read_collected(self._collect(items[1:]), range(n - 1), f"after the stream of {where} was closed")
 
     def path_fields(self, where, md):
